@@ -1694,6 +1694,15 @@ func stepCandidate(r *raft, m *pb.Message) error {
 		r.becomeFollower(m.GetTerm(), m.GetFrom()) // always m.Term == r.Term
 		r.handleSnapshot(m)
 	case myVoteRespType:
+		if r.state == StatePreCandidate && !m.GetReject() && m.GetTerm() != r.Term+1 {
+			// A granted pre-vote carries the term it was requested for. A grant for
+			// any other term answers an earlier pre-candidacy of this node (it has
+			// since reached that term, or restarted below it) and says nothing
+			// about the term being asked for now, so it must not be tallied.
+			r.logger.Infof("%x [term %d] ignored stale %s from %x for term %d",
+				r.id, r.Term, m.GetType(), m.GetFrom(), m.GetTerm())
+			return nil
+		}
 		gr, rj, res := r.poll(m.GetFrom(), m.GetType(), !m.GetReject())
 		r.logger.Infof("%x has received %d %s votes and %d vote rejections", r.id, gr, m.GetType(), rj)
 		switch res {
